@@ -161,6 +161,17 @@ def run_binary(args):
     elif form == 'g':
         script = b'g/' + pat.replace(b'/', b'\\/') + b'/p\n'
         r, d = common.run_ex(vi, script, files={'f1': 'aa1,9 ab(a)\nééa€\n'.encode()}, timeout=60)
+    elif form in ('addr', 'addr-open', 'raddr-open', 'g-open', 's-open', 'nested', 'two'):
+        # the pattern as an ex address, with and without its closing delimiter (the command line then ends inside the pattern), in
+        # the unfinished forms of :g and :s, in an address inside a global's command list, and twice in one range
+        q = pat.replace(b'/', b'\\/')
+        script = {'addr': b'/' + q + b'/p\n', 'addr-open': b'/' + q + b'\n', 'raddr-open': b'?' + pat.replace(b'?', b'\\?') + b'\n', 'g-open': b'g/' + q + b'\n', 's-open': b's/' + q + b'\n',
+                  'nested': b'g/a/ /' + q + b'\n', 'two': b'/' + q + b'/;/' + q + b'\n'}[form]
+        r, d = common.run_ex(vi, script, files={'f1': 'aa1,9 ab(a)\nééa€\n'.encode()}, timeout=60)
+    elif form == 'vi-colon':
+        r, d = common.run_vi(vi, b':/' + pat.replace(b'/', b'\\/') + b'\n' + b':1;?' + pat.replace(b'?', b'\\?') + b'\n', files={'f1': 'aa1,9 ab(a)\nééa€\n'.encode()}, timeout=60)
+    elif form == '?':
+        r, d = common.run_vi(vi, b'G?' + pat + b'\n', files={'f1': 'aa1,9 ab(a)\nééa€\n'.encode()}, timeout=60)
     else:
         r, d = common.run_vi(vi, b'/' + pat + b'\n', files={'f1': 'aa1,9 ab(a)\nééa€\n'.encode()}, timeout=60)
     common.rmcase(d)
@@ -237,7 +248,7 @@ def run(tier, V):
             continue
         if b'\n' in p or len(p) > 400:
             continue
-        for form in ('s', 'g', '/'):
+        for form in ('s', 'g', '/', '?', 'addr', 'addr-open', 'raddr-open', 'g-open', 's-open', 'nested', 'two', 'vi-colon'):
             bjobs.append((vi, p, form))
     bres = pmap(run_binary, bjobs)
     for b in bres:
@@ -249,7 +260,7 @@ def run(tier, V):
     cov['distinct_nontrivial'] = tot.get('ncomp', 0) // 2 + extra.get('ncomp', 0) // 2
     cov['rule'] = ('EVERY string of length 1..%d over the 16 symbols %r (and a seed-chosen 1/32 slice of the strings up to length %d in quick), each compiled by rset_make and rstr_make (icase on/off) and '
                    'matched against 7 lines x 2 flag sets with range/char-boundary assertions in the probe, under ASan+UBSan with a %d-step budget; + %d random byte strings (1..255, len<=64) '
-                   '+ a directed pool of %d malformed constructs, also typed into the real binary as :s, :g and /.  non-trivial = the pattern compiled (so it was also matched).' % (
+                   '+ a directed pool of %d malformed constructs, also typed into the real binary as :s, :g, / and ?, as an ex address with and without its closing delimiter, as unfinished :g and :s, inside the command list of a global and at the vi : prompt.  non-trivial = the pattern compiled (so it was also matched).' % (
                        maxlen, ALPHA16, maxlen + 1, BUDGET, nones, len(pool)))
     cov['samples'] = [p.decode('latin-1') for p in pool[30:36]] + [pats[0].decode('latin-1'), pats[1].decode('latin-1')]
     assumptions = ['ASan red zones catch overflows of the program/jmpend/mark arrays only when they leave the object; UBSan catches signed overflow and out-of-bounds indexing of fixed arrays',
